@@ -247,19 +247,39 @@ def playback(scratch, feat, h):
     against the real code (in the scratch copy of the working tree).
     Returns (reproduced: bool, text)."""
     base = ["-Z", "function-contracts", "-Z", "stubbing", "-Z", "unstable-options", "-Z", "concrete-playback"]
-    cmd = ["cargo", "kani"] + base + ["--concrete-playback=inplace", "--exact", "--harness", h.full,
+    cmd = ["cargo", "kani"] + base + ["--concrete-playback=print", "--exact", "--harness", h.full,
                                       "--harness-timeout", "%ds" % h.timeout, "--output-format", "terse"] + FEATURES[h.feat]
     rc, out, _ = run(cmd, cwd=scratch, timeout=h.timeout * 2 + 600)
+    blocks = re.findall(r"```\n(.*?)\n```", out, re.S)
+    tests = []
+    for b in blocks:
+        m = re.search(r"fn (kani_concrete_playback_\w+)\s*\(\)", b)
+        if not m:
+            continue
+        is_cover = re.search(r"Check for `cover`", b) is not None
+        if not is_cover:
+            tests.append((m.group(1), b))
+    if not tests:
+        return False, "concrete playback produced no test case for a failed check\n" + "\n".join(out.split("\n")[-30:])
     hfile = os.path.join(scratch, os.path.dirname(h.file.module), h.file.modname + ".rs")
-    src = open(hfile).read()
-    m = re.search(r"fn (kani_concrete_playback_%s_\w+)\s*\(\)\s*\{(.*?)\n\}" % re.escape(h.name), src, re.S)
-    if not m:
-        return False, "concrete playback produced no test case\n" + "\n".join(out.split("\n")[-30:])
-    test_name = m.group(1)
-    test_src = m.group(0)
-    cmd2 = ["cargo", "kani", "playback", "-Z", "concrete-playback"] + FEATURES[h.feat] + ["--", test_name]
-    rc2, out2, _ = run(cmd2, cwd=scratch, timeout=900)
-    reproduced = ("test result: FAILED" in out2) or ("panicked at" in out2 and "FAILED" in out2)
-    text = "concrete counterexample (Kani concrete playback), generated test:\n%s\n\nnative run (`%s`):\n%s\n" % (
-        test_src, " ".join(cmd2), "\n".join(out2.split("\n")[-40:]))
+    seen = set()
+    with open(hfile, "a") as f:
+        for (name, b) in tests:
+            if name in seen:
+                continue
+            seen.add(name)
+            f.write("\n" + b + "\n")
+    text = ""
+    reproduced = False
+    for name in sorted(seen):
+        cmd2 = ["cargo", "kani", "playback", "-Z", "concrete-playback"] + FEATURES[h.feat] + ["--", name]
+        rc2, out2, _ = run(cmd2, cwd=scratch, timeout=900)
+        rep = "test result: FAILED" in out2
+        reproduced = reproduced or rep
+        src = [b for (n, b) in tests if n == name][0]
+        text += "concrete counterexample (Kani concrete playback), generated test:\n%s\n\nnative run against the real code (`%s`): %s\n%s\n\n" % (
+            src, " ".join(cmd2), "FAILED as predicted (violation reproduced)" if rep else "did not fail natively",
+            "\n".join([l for l in out2.split("\n") if not l.startswith("warning") and l.strip()][-25:]))
+        if rep:
+            break
     return reproduced, text
